@@ -40,7 +40,7 @@ def make_map(layout):
         kw = {}
         if r.get("al") is not None:
             kw["alignment"] = r["al"]
-        mm.add_resource(stub, name=(f"r{k}",), size=need + r.get("size", 0), addr=r.get("addr"), **kw)
+        mm.add_resource(stub, name=(f"{layout.get('prefix', 'r')}{k}",), size=need + r.get("size", 0), addr=r.get("addr"), **kw)
         stubs.append(stub)
     return mm, stubs
 
